@@ -58,6 +58,13 @@ def judge_trace(prop, verdict, name, decls, obs_paths, stats, want_eps=None):
         table.update(t)
         events.extend(e)
         index.extend(ix)
+    # measured: distinct pairs whose outcome is not the trivial "accepted unchanged"
+    nontrivial = set()
+    for e in events:
+        for mi, mo in zip(e["ins"], e["outs"]):
+            if not (isinstance(mo, dict) and mo.get("k") == "ok" and mo.get("v") == mi.get("v")):
+                nontrivial.add((e["d"], e["ep"], json.dumps(mi, sort_keys=True)))
+    stats["nontrivial_pairs"] = stats.get("nontrivial_pairs", 0) + len(nontrivial)
     summary, bad, drift, states = validate_trace_chunks("Trace_Value", "Trace_Value.cfg", "trace_" + name, events, table)
     stats["trace_events"] = stats.get("trace_events", 0) + summary["events"]
     stats["trace_pairs"] = stats.get("trace_pairs", 0) + summary["pairs"]
@@ -128,6 +135,44 @@ def instantiate_slice(fam, adecls, rng, prefix, lifts=1):
     return out
 
 
+def const_twin(d, did):
+    """the same declaration with `const_fn` (custom functions rendered as `const fn`), or None when a
+    catalogue function has no const rendering. Also evaluated in const context on a few literal inputs."""
+    import copy
+    from .render_value import san_const_fn, pred_const_fn
+    if d["fam"] not in ("int", "float") or d["vmode"] == "custom":
+        return None
+    for s in d["san"]:
+        if san_const_fn(d, s, "x") is None:
+            return None
+    for r in d["val"]:
+        if r["k"] == "predicate" and pred_const_fn(d, r, "x") is None:
+            return None
+    t = copy.deepcopy({k: v for k, v in d.items() if k != "_phi"})
+    if "_phi" in d:
+        t["_phi"] = d["_phi"]
+    t["id"] = did
+    t["const_fn"] = True
+    t["traits"] = [x for x in t["traits"] if x not in ("Default",)]
+    marks = []
+    for r in d["val"]:
+        if r["k"] in ("greater", "greater_or_equal", "less", "less_or_equal"):
+            marks.append(r["b"])
+    if d["fam"] == "int":
+        from .values import INT_TYPES
+        lo, hi = INT_TYPES[d["ty"]]
+        cand = sorted({v for m in marks for v in (m - 1, m, m + 1) if lo <= v <= hi} | {lo, hi, 0 if lo <= 0 else lo})
+    else:
+        cand = sorted(set(marks) | {f_bits_of(d["ty"], 0.0), f_bits_of(d["ty"], 5.5)})
+    t["const_inputs"] = cand[:8]
+    return t
+
+
+def f_bits_of(ty, x):
+    from .values import f_bits
+    return f_bits(ty, x)
+
+
 def inputs_for(d, rng, nrandom):
     if d["fam"] == "int":
         return VL.int_inputs(d, rng, nrandom)
@@ -146,4 +191,8 @@ def rows_direct(d, rng, nrandom, eps=None, with_default=True):
             rows.append({"d": d["id"], "ep": ep, "ins": ins})
     if with_default and "Default" in d["traits"] and d["dflt"] and (eps is None or "default" in eps):
         rows.append({"d": d["id"], "ep": "default", "ins": [None]})
+    if d.get("const_inputs"):
+        ep = "try_new_const" if d["vmode"] != "none" else "new_const"
+        if eps is None or ep.replace("_const", "") in eps:
+            rows.append({"d": d["id"], "ep": ep, "ins": [{"i": i, "v": VL.enc_value(d, v)} for i, v in enumerate(d["const_inputs"])]})
     return rows
